@@ -113,6 +113,8 @@ struct Gen<'a> {
     stats: &'a mut BTreeMap<String, u64>,
     /// name of the enter_on_poll future in (thread, slot)
     eop_names: BTreeMap<(usize, usize), u64>,
+    zero_prefix_used: bool,
+    zero_trace_used: bool,
 }
 
 #[derive(Clone, Debug)]
@@ -255,6 +257,9 @@ impl<'a> Gen<'a> {
                 self.log(tb, &format!("I {}", c as u8), "-");
             }
             Act::Spawn(t, p, sfx) => {
+                if p == 0 {
+                    self.zero_prefix_used = true;
+                }
                 self.orch.spawn(t, p, sfx);
                 self.threads.insert(t, GThread { st: TSt::Ready, scoped: vec![], nest: vec![], cur_busy: vec![], pending_nest: None, cur_adapter: None });
                 self.log(tb, &format!("S {} {} {}", t, p, sfx), "-");
@@ -439,7 +444,9 @@ impl<'a> Gen<'a> {
             let tr = self.next_trace + 1;
             let sampled = if self.rng.chance(1, 3) { 0 } else { 1 };
             let remote: u64 = match self.rng.below(4) { 0 => 0, 1 => self.rng.next(), 2 => 1u64 << 63, _ => self.rng.below(1000) as u64 };
-            let trace: u128 = match self.rng.below(5) { 0 => (1u128 << 127) | tr as u128, 1 => (tr as u128) << 64, _ => 0x1000 + tr as u128 };
+            // trace id 0 is an ordinary id for the library; at most one root per history gets it
+            // (roots sharing a trace id would share everything keyed by it in the oracles)
+            let trace: u128 = match self.rng.below(if self.zero_trace_used { 5 } else { 6 }) { 0 => (1u128 << 127) | tr as u128, 1 => (tr as u128) << 64, 5 => 0, _ => 0x1000 + tr as u128 };
             cands.push((6, c(vec![s("root"), s(h), s(name), format!("{:x}", trace), format!("{:x}", remote), s(sampled)])));
             if self.rng.chance(1, 6) {
                 cands.push((1, c(vec![s("noop"), s(h)])));
@@ -596,6 +603,9 @@ impl<'a> Gen<'a> {
                 }
                 if head == "root" {
                     self.next_trace += 1;
+                    if toks[3] == "0" {
+                        self.zero_trace_used = true;
+                    }
                 }
                 self.spans.insert(h, SpanInfo { inuse: 0, out: true });
                 let mut busy = vec![h];
@@ -744,7 +754,11 @@ impl<'a> Gen<'a> {
         let alive = self.threads.values().filter(|x| x.st != TSt::Gone).count();
         if !in_drain && self.threads.len() < self.prof.max_threads + 2 && alive < self.prof.max_threads {
             let t = self.threads.len();
-            let (p, sfx) = if self.rng.chance(1, 25) { (0u32, u32::MAX - 1 - self.rng.below(3) as u32) } else { (t as u32 + 1, 0) };
+            // at most one thread per history gets the id prefix 0 (the K3 boundary): two threads with
+            // the same prefix would issue the same span ids, which real threads (random prefixes)
+            // do only with probability 2^-32 and which the model's id theorems exclude
+            let zero = !self.zero_prefix_used && self.rng.chance(1, 25);
+            let (p, sfx) = if zero { (0u32, u32::MAX - 1 - self.rng.below(3) as u32) } else { (t as u32 + 1, 0) };
             cands.push((if alive == 0 { 50 } else { 2 }, Act::Spawn(t, p, sfx)));
         }
         let tids: Vec<usize> = self.threads.keys().copied().collect();
@@ -904,6 +918,24 @@ impl<'a> Gen<'a> {
     }
 }
 
+/// a monotonic instant and the wall-clock time (unix ns) of the same moment: read until the two
+/// wall-clock readings around the instant are less than 1 ms apart (the thread may be
+/// descheduled between two statements on a loaded machine)
+fn clock_anchor() -> (std::time::Instant, u128) {
+    let unix = || std::time::SystemTime::now().duration_since(std::time::UNIX_EPOCH).map(|d| d.as_nanos()).unwrap_or(0);
+    let mut best = (std::time::Instant::now(), unix());
+    for _ in 0..50 {
+        let w0 = unix();
+        let base = std::time::Instant::now();
+        let w1 = unix();
+        best = (base, w0);
+        if w1.saturating_sub(w0) < 1_000_000 {
+            break;
+        }
+    }
+    best
+}
+
 fn pick_caps(rng: &mut Rng, prof: &Profile) -> (usize, usize, usize) {
     let ring = if prof.small_rings || rng.chance(1, 6) { *rng.pick(&[1usize, 2, 2, 3, 4, 6]) } else { 10240 };
     let stack = if prof.small_caps && rng.chance(1, 3) { *rng.pick(&[1usize, 2, 3]) } else { 4096 };
@@ -920,7 +952,10 @@ pub fn generate(seed: u64, first: usize, n: usize, prof_name: &str, out: &mut dy
         let mut rng = Rng::new(hseed);
         let (ring, stack, queue) = pick_caps(&mut rng, &prof);
         let _ = writeln!(out, "H {}-{}-{} {} {} {} {}", prof.name, seed, k, dbg as u8, ring, stack, queue);
-        let _ = writeln!(out, "W {}", std::time::SystemTime::now().duration_since(std::time::UNIX_EPOCH).map(|d| d.as_nanos()).unwrap_or(0));
+        // the wall clock and the monotonic base of the action times are read back to back: the
+        // begin-time window of C18 is W + (monotonic offset)
+        let (base, wall) = clock_anchor();
+        let _ = writeln!(out, "W {}", wall);
         let orch = Orch::new(ring, stack, queue);
         let len = prof.len_lo + rng.below(prof.len_hi - prof.len_lo + 1);
         let wind = rng.chance(9, 10);
@@ -937,7 +972,7 @@ pub fn generate(seed: u64, first: usize, n: usize, prof_name: &str, out: &mut dy
             next_sym: 0,
             coll: CollSt::Idle,
             installed: false,
-            base: std::time::Instant::now(),
+            base,
             out,
             dead: false,
             focus: None,
@@ -945,6 +980,8 @@ pub fn generate(seed: u64, first: usize, n: usize, prof_name: &str, out: &mut dy
             nactions: 0,
             stats: &mut stats,
             eop_names: BTreeMap::new(),
+            zero_prefix_used: false,
+            zero_trace_used: false,
         };
         while g.nactions < len && !g.dead {
             g.step();
@@ -997,7 +1034,8 @@ pub fn replay(path: &str, out: &mut dyn Write) {
             let queue: usize = f[5].parse().unwrap_or(10240);
             let dbg = cfg!(debug_assertions);
             let _ = writeln!(out, "H {} {} {} {} {}", f[1], dbg as u8, ring, stack, queue);
-            let _ = writeln!(out, "W {}", std::time::SystemTime::now().duration_since(std::time::UNIX_EPOCH).map(|d| d.as_nanos()).unwrap_or(0));
+            let (base, wall) = clock_anchor();
+            let _ = writeln!(out, "W {}", wall);
             // collect the actions of this history
             let mut acts: Vec<Vec<String>> = vec![];
             while i < lines.len() && !lines[i].starts_with('E') {
@@ -1027,7 +1065,7 @@ pub fn replay(path: &str, out: &mut dyn Write) {
                 next_sym: 0,
                 coll: CollSt::Idle,
                 installed: false,
-                base: std::time::Instant::now(),
+                base,
                 out,
                 dead: false,
                 focus: None,
@@ -1035,6 +1073,8 @@ pub fn replay(path: &str, out: &mut dyn Write) {
                 nactions: 0,
                 stats: &mut stats,
                 eop_names: BTreeMap::new(),
+                zero_prefix_used: false,
+            zero_trace_used: false,
             };
             for toks in acts {
                 if g.dead {
